@@ -105,6 +105,11 @@ func (e *Engine) solveAll(results []*FuncResult, wantModel bool) {
 				var sr SolveResult
 				if o.Expect == "sat" {
 					sr = e.solver.SolveT(q, 2)
+				} else if e.expectUndecided[o.Name] && e.shortBudget > 0 {
+					// an obligation recorded as a known finding (or as undecided) is expected not to discharge:
+					// the quick tier does not spend the whole budget on it (it is reported either way; the
+					// thorough tier gives it the full budget)
+					sr = e.solver.SolveT(q, e.shortBudget)
 				} else {
 					sr = e.solver.Solve(q, true)
 				}
